@@ -494,3 +494,24 @@ Section ResolveRef.
     destruct had; reflexivity.
   Qed.
 End ResolveRef.
+
+(* the is_local_name exception, stated with the visibility relation only *)
+Lemma local_innermost_vis_lem : forall tbl file line n cur vs s st,
+  scopes_exist tbl vs ->
+  (search tbl file line n cur true vs None [] = Some (Some (s, st), [])
+   <-> exists pre post e,
+         vs = pre ++ s :: post /\ (forall s' e', ~ visible tbl cur pre n s' e') /\
+         lookup_scope tbl s = Some st /\ lookup n (sc_ents st) = Some e /\ (s = cur \/ sc_vis e = SEARCHABLE)).
+Proof.
+  intros tbl file line n cur vs s st Hex. rewrite local_innermost_lem by assumption.
+  split; intros [pre [post [e [H1 [H2 H3]]]]]; exists pre, post, e; (split; [exact H1|]); (split; [|exact H3]);
+    apply hits_nil_iff; exact H2.
+Qed.
+
+(* with is_local_name, ambiguity is never reported *)
+Lemma local_never_ambiguous_lem : forall tbl file line n cur vs f errs,
+  scopes_exist tbl vs -> search tbl file line n cur true vs None [] = Some (f, errs) -> errs = [].
+Proof.
+  intros tbl file line n cur vs f errs Hex H. rewrite search_local in H by assumption.
+  destruct (hits tbl n cur vs); inversion H; reflexivity.
+Qed.
